@@ -234,11 +234,12 @@ _RF = {}
 
 
 def returns_fresh(repo, func, depth=0):
-    k = (id(repo), func.qual)
-    if k in _RF:
-        return _RF[k]
-    _RF[k] = SHARED          # recursion guard
+    cache = repo.__dict__.setdefault('_rf_cache', {})
+    k = func.qual
+    if k in cache:
+        return cache[k]
+    cache[k] = SHARED          # recursion guard
     fr = Freshness(repo, func, depth).run()
     res = FRESH if fr.returns and all(r == FRESH for r in fr.returns) else SHARED
-    _RF[k] = res
+    cache[k] = res
     return res
